@@ -3141,3 +3141,5 @@ def check(run, prog):
     rule_regex_ambiguity(run, prog)          # R-5.10
     from .c05_scope_scan import rule_scope_scans
     rule_scope_scans(run, prog)              # R-5.11
+    from .c05_zero_match import rule_zero_matches
+    rule_zero_matches(run, prog)             # R-5.12
